@@ -35,6 +35,9 @@ pub enum Case {
     /// column for Pearson / multi-target regression): scale-invariant scores must not move, scale-
     /// equivariant ones must follow, both judged against the definition at a RELATIVE tolerance
     Scaled { base: Box<Case>, factors: Vec<f64> },
+    /// the base case's labels / truth handed over in every target container form (views, datasets,
+    /// dataset views, CountedTargets, with_labels, one_vs_all, map_targets, into_single_target)
+    Containers { base: Box<Case> },
 }
 
 #[derive(Default, Debug)]
